@@ -1,7 +1,6 @@
 /-
-  Certificate obligations, parts 0..7 of 64 of the `current` client system (kernel evaluation; 8 modules
-  so that lake checks them in parallel; small parts keep the kernel's memory small).
-  Assembled in `Lemmas/CliCert.lean`.
+  Certificate obligations, parts 0..1 of 16 of the `current` client system (kernel evaluation; 8 modules
+  so that lake checks them in parallel). Assembled in `Lemmas/CliCert.lean`.
 -/
 import KmipModel.Model.CliConn
 import KmipModel.Gen.CertCliConn
@@ -9,20 +8,8 @@ namespace Kmip.CliCert
 open Kmip.CliLts Kmip.CliConn Kmip.Gen.CertCliConn
 
 theorem cuClosed0 : partClosed (sys current) codec certCurrent cuP0 = true := by decide +kernel
-theorem cuSafe0 : partSafe codec (badPartial current) cuP0 = true := by decide +kernel
+theorem cuSafe0 : partSafe codec (bad current) cuP0 = true := by decide +kernel
 theorem cuClosed1 : partClosed (sys current) codec certCurrent cuP1 = true := by decide +kernel
-theorem cuSafe1 : partSafe codec (badPartial current) cuP1 = true := by decide +kernel
-theorem cuClosed2 : partClosed (sys current) codec certCurrent cuP2 = true := by decide +kernel
-theorem cuSafe2 : partSafe codec (badPartial current) cuP2 = true := by decide +kernel
-theorem cuClosed3 : partClosed (sys current) codec certCurrent cuP3 = true := by decide +kernel
-theorem cuSafe3 : partSafe codec (badPartial current) cuP3 = true := by decide +kernel
-theorem cuClosed4 : partClosed (sys current) codec certCurrent cuP4 = true := by decide +kernel
-theorem cuSafe4 : partSafe codec (badPartial current) cuP4 = true := by decide +kernel
-theorem cuClosed5 : partClosed (sys current) codec certCurrent cuP5 = true := by decide +kernel
-theorem cuSafe5 : partSafe codec (badPartial current) cuP5 = true := by decide +kernel
-theorem cuClosed6 : partClosed (sys current) codec certCurrent cuP6 = true := by decide +kernel
-theorem cuSafe6 : partSafe codec (badPartial current) cuP6 = true := by decide +kernel
-theorem cuClosed7 : partClosed (sys current) codec certCurrent cuP7 = true := by decide +kernel
-theorem cuSafe7 : partSafe codec (badPartial current) cuP7 = true := by decide +kernel
+theorem cuSafe1 : partSafe codec (bad current) cuP1 = true := by decide +kernel
 
 end Kmip.CliCert
